@@ -25,6 +25,8 @@ def reductions(sig):
     # a segment marker alone: the listed defect of the plain site reached under a segment override
     ms = re.search(r' seg(=ds|=ss)?(?= |$)', sig)
     if ms:
+        if ms.group(1):          # ds/ss override: first the same site under any other segment override
+            yield sig[:ms.start()] + ' seg' + sig[ms.end():], 'other segment'
         plain = sig[:ms.start()] + sig[ms.end():]
         yield plain, 'no segment'
         for s2, a in reductions(plain):
